@@ -83,6 +83,11 @@ func (n *node[T, N]) splitIfNeeded() {
 		if len(n.contents) >= n.threshold {
 			hw := n.rect.Width / 2
 			hh := n.rect.Height / 2
+			if hw == 0 && hh == 0 {
+				// A unit cell of integer coordinates can't be subdivided: the fourth child would be this very rect and
+				// threshold-many nodes inside it would split it forever.
+				return
+			}
 			n.children[0] = &node[T, N]{
 				rect: geom.Rect[T]{
 					Point: n.rect.Point,
